@@ -229,7 +229,25 @@ where
     let mut skipping = SkipT::<C> { window: win, map: Map::new() };
     macro_rules! draw_both {
         ($drawable:expr) => {{
-            let img = if centered { Image::with_center($drawable, offset) } else { Image::new($drawable, offset) };
+            // derived choice: a third of the images are created somewhere else and moved to the offset with
+            // `translate` / `translate_mut` (an image "at offset o", whichever way the offset was reached)
+            let route = d.derived(0x7a51, 6);
+            let by = if route >= 4 { Point::new(d.derived(0x7a52, 41) as i32 - 20, d.derived(0x7a53, 61) as i32 - 30) } else { Point::zero() };
+            let start = offset - by;
+            let img0 = if centered { Image::with_center($drawable, start) } else { Image::new($drawable, start) };
+            let img = match route {
+                4 => {
+                    use embedded_graphics::transform::Transform;
+                    img0.translate(by)
+                }
+                5 => {
+                    use embedded_graphics::transform::Transform;
+                    let mut i = img0;
+                    i.translate_mut(by);
+                    i
+                }
+                _ => img0,
+            };
             ensure!(img.bounding_box() == Rectangle::new(position, draw_size), "image:bounding_box", "bounding_box() = {:?}, expected {:?}", img.bounding_box(), Rectangle::new(position, draw_size));
             img.draw(&mut native).map_err(|e| Fail { sig: "draw_error".into(), detail: format!("{:?}", e) })?;
             img.draw(&mut iter_only).map_err(|e| Fail { sig: "draw_error".into(), detail: format!("{:?}", e) })?;
